@@ -1032,9 +1032,12 @@ func callBuiltin(caller *frame, callpos token.Pos, fn *ssa.Builtin, args []value
 		if isStr(args[1]) {
 			// append([]byte, ...string) []byte
 			arg0 := args[0].([]value)
-			return append(arg0, strBytes(args[1])...)
+			sb := strBytes(args[1])
+			caller.i.copyCost += int64(len(sb))
+			return append(arg0, sb...)
 		}
 		// append([]T, ...[]T) []T
+		caller.i.copyCost += int64(len(args[1].([]value)))
 		return append(args[0].([]value), args[1].([]value)...)
 
 	case "copy": // copy([]T, []T) int or copy([]byte, string) int
@@ -1042,7 +1045,9 @@ func callBuiltin(caller *frame, callpos token.Pos, fn *ssa.Builtin, args []value
 		if isStr(src) {
 			src = strBytes(src)
 		}
-		return copy(args[0].([]value), src.([]value))
+		n := copy(args[0].([]value), src.([]value))
+		caller.i.copyCost += int64(n)
+		return n
 
 	case "close": // close(chan T)
 		chanClose(caller.i, args[0].(*channel))
